@@ -28,10 +28,19 @@ SER_METHODS = ['serialize_bool', 'serialize_i8', 'serialize_i16', 'serialize_i32
 
 
 def ser_impls(facts):
+    import re
     out = {}
     for imp in facts.impls:
         if imp.get('trait') == SER:
             out[imp['self_ty']] = {it['name']: it['def'] for it in imp['items']}
+    # the flag-carrying serializer of map values is known by `&mut MapValueSerializer`; handed on by value with a borrowed flag (`MapValueSerializer<'_>`) it is the
+    # same serializer under another signature
+    for ty in list(out):
+        base = re.sub(r"<'[a-z_]+>", '', ty)
+        if base == 'toml_edit::ser::map::MapValueSerializer' and '&mut ' + base not in out:
+            out['&mut ' + base] = out[ty]
+            if ty != base:
+                out.pop(ty)
     return out
 
 
@@ -137,13 +146,23 @@ def swallow_sites(facts, crate_prefixes=('toml_edit::ser', 'toml::value', 'toml:
                 detail = 'no guard'
                 for i in ifs:
                     def atom(x):
-                        if x.get('k') == 'binary' and x.get('op') == '==' and any((y.get('path') or '').endswith('UnsupportedNone') for y in walk(x)):
-                            return 'is_unsupported_none'
+                        if x.get('k') == 'binary' and x.get('op') in ('==', '!=') and any((y.get('path') or '').endswith('UnsupportedNone') for y in walk(x)):
+                            return 'is_unsupported_none' if x['op'] == '==' else 'isnt_unsupported_none'
                         if x.get('k') == 'field' and x.get('name') == 'is_none':
                             return 'value_was_none'
+                        if x.get('k') == 'path' and x.get('res') == 'Local' and (x.get('t') or '').replace('&mut ', '').replace('&', '').strip() == 'bool' and 'none' in (x.get('path') or '').lower():
+                            return 'value_was_none'          # the flag kept in a local of the caller (`saw_none`) instead of a field of the serializer
                         return None
                     try:
                         names, table = truth_table(ev, i['cond'], atom)
+                        if 'isnt_unsupported_none' in names and 'is_unsupported_none' not in names:
+                            # `e != UnsupportedNone` is the same question asked the other way round
+                            k_ = names.index('isnt_unsupported_none')
+                            names = ['is_unsupported_none' if n_ == 'isnt_unsupported_none' else n_ for n_ in names]
+                            table = {tuple((not v_) if j_ == k_ else v_ for j_, v_ in enumerate(key_)): val_ for key_, val_ in table.items()}
+                            order_ = sorted(range(len(names)), key=lambda j_: names[j_])
+                            names = [names[j_] for j_ in order_]
+                            table = {tuple(key_[j_] for j_ in order_): val_ for key_, val_ in table.items()}
                         detail = f'{names}: {table}'
                         if names == ['is_unsupported_none', 'value_was_none']:
                             okg = all(v == (not (a and bb)) for (a, bb), v in table.items())
